@@ -788,6 +788,18 @@ func (p c16) Exec(t *core.Trace) *core.Result {
 		muts = append(muts, mut{"size-minus-1", &overlayFS{base: dfs, kind: "shorter", path: f}})
 		muts = append(muts, mut{"file-became-directory", &overlayFS{base: dfs, kind: "swap", path: f}})
 	}
+	var empties []string
+	for _, p := range allPaths {
+		if e := want[p]; !e.Dir && len(e.Data) == 0 {
+			empties = append(empties, p)
+		}
+	}
+	if len(empties) > 0 {
+		// a file that is empty in the source and holds a byte in the target
+		f := empties[int(uint64(t.I("tag")>>4)%uint64(len(empties)))]
+		muts = append(muts, mut{"empty-file-size-plus-1", &overlayFS{base: dfs, kind: "longer", path: f}})
+		muts = append(muts, mut{"empty-file-has-content", &flipFS{FS: &overlayFS{base: dfs, kind: "longer", path: f}, path: f, delta: 1}})
+	}
 	if len(allPaths) > 0 {
 		pth := allPaths[int(uint64(t.I("tag")>>8)%uint64(len(allPaths)))]
 		muts = append(muts, mut{"entry-missing", &overlayFS{base: dfs, kind: "hide", path: pth}})
